@@ -124,7 +124,7 @@ CASE_GROUPS = ["unary", "unaryvec", "scale", "partial", "rotate", "euler", "quat
 def _gen_group(args):
     tier, group = args
     cfg = (f'SPECIFICATION Spec\nCONSTANTS\n  Tier = "{tier}"\n  Group = "{group}"\n'
-           "INVARIANT WellFormed\nINVARIANT Emit\nCHECK_DEADLOCK FALSE\n")
+           "INVARIANT WellFormed\nINVARIANT RangeConventions\nINVARIANT Emit\nCHECK_DEADLOCK FALSE\n")
     r = run_tlc("Cases", cfg, workers=1, xmx="3g")
     cases = parse_cases(r["lines"])
     if len(cases) != r["distinct"]:
